@@ -36,6 +36,23 @@ func checkGrammar(c gen.Str) error {
 	return nil
 }
 
+var oneEditMemo []gen.Str
+
+// oneEditCases: every string at one structural edit from a representative vector.
+func oneEditCases() []gen.Str {
+	if oneEditMemo != nil {
+		return oneEditMemo
+	}
+	for _, r := range gen.Representatives() {
+		r := r
+		oneEditMemo = append(oneEditMemo, gen.Str{S: gen.BStr(r.S), Source: "valid"})
+		for _, s := range gen.OneEditNeighbourhood(r.Ver, r.S) {
+			oneEditMemo = append(oneEditMemo, gen.Str{S: gen.BStr(s), Source: "one-edit"})
+		}
+	}
+	return oneEditMemo
+}
+
 func memberOfAny(s string) (int, bool) {
 	for i, v := range spec.Versions {
 		if spec.Member(v, s) {
@@ -81,6 +98,23 @@ func TestC01(t *testing.T) {
 	n := env.Scale(250000, 400000)
 	if env.Shards > 1 {
 		n = env.Scale(250000, 1500000)
+	}
+	if env.Shards <= 1 {
+		// complete one-edit neighbourhood of a fixed set of representative vectors
+		nb := oneEditCases()
+		Enum(h, "string", len(nb), func(i int) gen.Str { return nb[i] }, func(i int) bool { return checkGrammar(nb[i]) == nil }, checkGrammar)
+		if !h.replaying() {
+			valid := 0
+			for _, c := range nb {
+				key := string(c.S) // every one-edit string is non-trivial by the rule (member, or one-edit reject)
+				if _, ok := memberOfAny(key); ok {
+					valid++
+				}
+				h.R.Case("one-edit neighbourhood of the representative vectors (exhaustive)", key)
+			}
+			h.R.Count("one-edit neighbourhood: strings still well-formed", int64(valid))
+			h.R.Sample("one-edit", nb[len(nb)/2])
+		}
 	}
 	Rapid(h, "string", n, func(rt *rapid.T) gen.Str {
 		c := gen.AnyString(rt)
@@ -180,6 +214,19 @@ func TestC13(t *testing.T) {
 	if env.Shards > 1 {
 		n = env.Scale(150000, 1000000)
 	}
+	if env.Shards <= 1 {
+		nb := oneEditCases()
+		Enum(h, "string", len(nb), func(i int) gen.Str { return nb[i] }, func(i int) bool { return checkOneVersion(nb[i]) == nil }, checkOneVersion)
+		if !h.replaying() {
+			for _, c := range nb {
+				key := ""
+				if acc, _ := acceptors(string(c.S)); len(acc) == 1 {
+					key = string(c.S)
+				}
+				h.R.Case("one-edit neighbourhood of the representative vectors (exhaustive)", key)
+			}
+		}
+	}
 	Rapid(h, "string", n, func(rt *rapid.T) gen.Str {
 		c := gen.AnyString(rt)
 		acc, _ := acceptors(string(c.S))
@@ -256,6 +303,55 @@ func checkMeaningAny(c gen.Str) error {
 	return nil
 }
 
+var pairVectorMemo []gen.Valid
+
+// pairVectors: for every version, every ordered pair of distinct metrics and
+// every pair of their values, a vector in which the other metrics hold a fixed
+// background. v3: the two metrics are written FIRST, in that order (the parser
+// stores in written order, so this exposes a Set that disturbs an earlier
+// metric); v2/v4: fixed order, full vector.
+func pairVectors() []gen.Valid {
+	if pairVectorMemo != nil {
+		return pairVectorMemo
+	}
+	for vi, v := range spec.Versions {
+		bg := background(v, 1)
+		var all []string
+		for _, m := range v.Metrics {
+			all = append(all, m.Abv)
+		}
+		for i1, m1 := range v.Metrics {
+			for i2, m2 := range v.Metrics {
+				if i1 == i2 || (v.Name != "3.0" && v.Name != "3.1" && i1 > i2) {
+					continue
+				}
+				for _, v1 := range m1.Vals {
+					for _, v2 := range m2.Vals {
+						a := bg.Clone()
+						a[m1.Abv], a[m2.Abv] = v1, v2
+						written := all
+						layout := "spec-order"
+						if v.Name == "3.0" || v.Name == "3.1" {
+							written = []string{m1.Abv, m2.Abv}
+							for _, x := range all {
+								if x != m1.Abv && x != m2.Abv {
+									written = append(written, x)
+								}
+							}
+							layout = "shuffled"
+						}
+						if v.Name == "2.0" {
+							layout = "base+temporal+env"
+						}
+						pairVectorMemo = append(pairVectorMemo, gen.Valid{Ver: vi, S: spec.Spell(v, a, written), A: a, Written: written, Layout: layout})
+					}
+				}
+			}
+		}
+	}
+	return pairVectorMemo
+}
+
 func TestC06(t *testing.T) {
 	h := start(t, "C06", "well-formed vectors built by construction from a known assignment (v2: all four group layouts incl. all-ND and one-defined groups; v3: random subset of optional metrics, explicit X, random permutation; v4: random subset, explicit X, all U spellings), plus the C01 string mix filtered by the reference parser; Get of every metric must equal the written value or ND/X; non-trivial = accepted vector; distinct by string")
 	n := env.Scale(60000, 150000)
@@ -300,6 +396,15 @@ func TestC06(t *testing.T) {
 			}
 			return c
 		}, checkMeaning)
+	}
+	if env.Shards <= 1 {
+		pv := pairVectors()
+		Enum(h, "valid", len(pv), func(i int) gen.Valid { return pv[i] }, func(i int) bool { return checkMeaning(pv[i]) == nil }, checkMeaning)
+		if !h.replaying() {
+			h.R.AddExact(int64(len(pv)), int64(len(pv)))
+			h.R.Count("exhaustive: every ordered pair of metrics x every pair of values, written first (v3) / in place (v2, v4)", int64(len(pv)))
+			h.R.Sample("pair-vector", map[string]any{"s": pv[len(pv)/2].S})
+		}
 	}
 	Rapid(h, "any", n, func(rt *rapid.T) gen.Str {
 		c := gen.AnyString(rt)
